@@ -2,9 +2,11 @@
 from .. import gen
 from . import common
 
-SPEC_THEOREM = 'Props/C08: the evaluator never panics on parser-producible paths; selection = PathSem semantics on the decoded tree'
+SPEC_THEOREM = ('Props/C08: the evaluator never panics on parser-producible paths; selection = PathSem semantics on the decoded tree; '
+                'C08_bytes_*: the offset-faithful selector (SelWalk.v: byte positions, no decoding) on enc v = the tree evaluator on normalise v')
 TRUSTED = ['Coq 8.16.1 kernel', 'translator', 'extraction + OCaml driver', 'Rust harness (paths are handed over as ASTs, no parser on the way)',
-           'model PathSem.v: selector.rs step by step with positions replaced by the sub-values they denote (offset arithmetic tied by correspondence)']
+           'model SelWalk.v: selector.rs on byte positions (tied to the code by correspondence, corrupt buffers included); PathSem.v is the same '
+           'evaluator on the denoted sub-values and SelWalkProofs.v proves the two equal on every canonical encoding']
 ASSUMPTIONS = ['documents are canonical encodings of well-formed values', 'cross-kind comparisons follow the derived variant order of PathValue (the README is silent)']
 RULE = '(path, document) pairs with paths generated from the document (steps hit) and perturbed; scalar roots, empty containers, container-valued items; step-kind pair coverage is measured; non-trivial = at least one item selected'
 
@@ -31,10 +33,42 @@ def generate(ctx):
             kinds = [s[0] for s in p.split(';')]
             for a, b in zip(kinds, kinds[1:]):
                 ctx.count('step_pairs', a + b)
+    # the selector on buffers that are NOT valid encodings (prefixes, one byte changed), with paths derived from the
+    # original document: C08 says nothing about them, but the offset-faithful model (SelWalk.v) does, including where an
+    # index expression or an unreachable!() panics; this stream only feeds the correspondence tie, so that the model the
+    # C08_bytes_* theorems are about is the position arithmetic of selector.rs
+    small = [v for v in ds if len(gen.enc(v)) <= 120]
+    for v in r.sample(small, min(len(small), ctx.scale(120, 3000))):
+        e = gen.enc(v)
+        muts = [e[:i] for i in range(len(e))] if len(e) <= 40 else [e[:r.randrange(len(e))] for _ in range(12)]
+        for _ in range(14):
+            i = r.randrange(len(e))
+            muts.append(e[:i] + bytes([r.choice([0, 1, 4, 0x10, 0x20, 0x30, 0x40, 0x50, 0x60, 0x70, 0x7f, 0x80, 0xff, e[i] ^ 1, e[i] ^ 0x10,
+                                                 (e[i] + 1) & 0xff])]) + e[i + 1:])
+        paths = [common.path_text(common.gen_path(ctx, v)) for _ in range(4)] + r.sample(fixed, 3)
+        for m in muts:
+            # a count field blown up to 2^24 or more makes the index list of `[0 to last]` gigabytes long before the
+            # entry words are read: such buffers are left to the wildcard / name / filter steps
+            huge = len(m) >= 4 and m[0] & 0xe0 == 0x80 and (m[0] & 0x1f or m[1] & 0xf0)
+            h = gen.hexarg(m)
+            for p in r.sample(paths, 3):
+                if huge and 'I(' in p:
+                    continue
+                ctx.add('select %s %s %s' % (h, p, r.choice(['all', 'first', 'array', 'mixed'])), kind='malformed')
+                c = r.random()
+                if c < 0.15:
+                    ctx.add('sel_exists %s %s' % (h, p), kind='malformed')
+                elif c < 0.3:
+                    ctx.add('sel_predicate_match %s %s' % (h, p), kind='malformed')
+                elif c < 0.5:
+                    ctx.add('%s %s %s' % (r.choice(['get_by_path', 'get_by_path_first', 'get_by_path_array', 'path_exists', 'path_match']), h, p),
+                            kind='malformed')
 
 
 def judge(ctx):
     for c in ctx.cases:
+        if c.kind == 'malformed':
+            continue
         o = ctx.impl.get(c.id, 'missing')
         if o == 'panic' or o.startswith('abort'):
             ctx.violate('path evaluation panics', case=c.line, observed=o)
